@@ -4,7 +4,7 @@ import os
 
 LEVEL_NOTE = ("Trusted: Coq 8.16.1 kernel (coqc, full .vo; coqchk in thorough), extraction (ExtrOcamlBasic, "
               "ExtrOcamlNativeString), driver/main.ml binary64 NumOps record and wire syntax, harness generators/"
-              "comparison, xlate/pyxlate.py (source-to-Gallina translator for decision and arithmetic expressions and 21 whole function bodies, re-run and "
+              "comparison, xlate/pyxlate.py (source-to-Gallina translator for decision and arithmetic expressions and 23 whole function bodies, re-run and "
               "re-proved equal to the model on every run), coq/Spec/*.v as transcription of the rules; that binary64 satisfies the number laws is proved "
               "for Coq's primitive floats (NumF) and for exact rationals (NumQ). Axioms per theorem: see evidence (Print Assumptions).")
 
@@ -67,7 +67,9 @@ CHECKS = {
             "and reports deviations within a relative 1e-9 as that finding."),
     "C14": ("proof", "Coq proof (predecessors, successors, transpose, four-way classification) + correspondence",
             "predecessors/successors are proved to be exactly the ancestor lists and their transpose with one entry per deme; the event lists are "
-            "proved to be the filters of the deme list by four mutually exclusive predicates, each split grouping all split-children of one parent."),
+            "proved to be the filters of the deme list by four mutually exclusive predicates, each split grouping all split-children of one parent. The whole bodies of "
+            "Graph.successors and Graph.predecessors are translated from the current source on every run and proved equal to Model/Ancestry.v (a KeyError on the "
+            "dict of lists is explicit in the translation and proved unreachable)."),
     "C15": ("proof", "Coq proof (fields renamed, validity preserved, lookups, inverse) + exact correspondence incl. name index; exhaustive small maps in thorough",
             "For every valid graph and injective map onto identifiers: every name field carries its new name, the result is Valid, lookup/membership "
             "by new names succeed and by unused names fail, renaming back restores the graph; non-injective or non-identifier maps are refused. The whole body of "
